@@ -11,6 +11,19 @@ operations / eq / cmp), the functions of checked.rs / overflowing.rs with nested
 checked_next_multiple_of, checked_next_power_of_two, checked_ilog2), int/unchecked.rs, the operator trait impls of
 int/ops.rs / buint/ops.rs / bint/ops.rs (including Shl / Shr for the twelve primitive amount types) and the num_traits
 forwarders of int/numtraits.rs.
+Round 3 (C17, tie Proofs/GlueTieC17.v, details and mutation table in tools/OPREF_TRANSLATOR.md): the OTHER FORMS of every
+operator, which src/int/ops.rs generates from the by-value impl through nested macros - op_ref_impl! (T op &R, &T op &R, &T op R),
+assign_op_impl! / shift_assign_ops! (op= R, op= &R), shift_self_impl! (Shl / Shr / ShlAssign / ShrAssign with a BUint<M> / BInt<M>
+amount: u32::try_from + expect, then the five other forms), all_shift_impls! - and Default / Sum / Product of buint/mod.rs, bint/mod.rs.
+The macros are EXPANDED BY PATTERN MATCHING from the invocations found in the body of impls! (and recursively in their own bodies),
+with the arguments found there, so a wrong pairing in an invocation list (an assign trait built on the wrong operator, a missing or
+extra amount type) changes what is generated; each impl is named from its header (auto_name) and must be one of EXPECT17.  A call
+`Tr::<R>::m(a, b)` / `Tr::m(a, b)` / `self.m_assign(x)` / `a + &b` is resolved the way rustc resolves it - Self = the type of the first
+argument INCLUDING whether it is a reference, R = the type argument or the type of the second argument - to the impl GENERATED from
+the source for exactly that (trait, Self, R) (registry IMPLS; calls go to the generated definition, e.g. Glue.U_Add_add, whose own
+tie is in GlueTieC04.v); no such impl yet (a form calling itself: infinite recursion in Rust) or a stub: the caller is a stub too.
+`&mut self` methods return the final value of *self; `iter.fold(init, |a, b| e)` is the hand model's Ops.fold_out; `u32::try_from`
+of a bnum is the hand model of that impl (Convert.U_try_to_prim / I_try_to_uprim at pb = 32: tied to the source in ConvGenTieC13.v).
 Each function of the files in FILES / INSTANCES below is re-translated FROM /repo's CURRENT SOURCE ON EVERY RUN into a
 Gallina definition over the hand-written model functions (coq/Model/*.v): a call `x.f(args)` becomes the model function
 `U_f` / `I_f` (by the static type of the receiver) applied to the translated arguments.  coq/Proofs/GlueTieC*.v prove
@@ -39,6 +52,10 @@ property; never a silent skip, never a guess):
                e as ExpType (identity on ExpType, u8, u16; `mod 2^32` on the other primitive integers)
                ExpType::try_from(prim) (Some exactly when 0 <= x <= u32::MAX)   u32::checked_sub
                o.unwrap_unchecked() as the whole body: the function is generated at type option (None = undefined behaviour)
+               (round 3)  `*self = e;`  self.op_assign(x); / (*self).op_assign(x);  in a `&mut self` method (assignments to self)
+               Tr::<R>::m(a, b)  Tr::m(a, b)  (Tr one of the std::ops operator / assign traits)   a + b, a * b, a - b with reference
+               operands or inside a closure (dispatched to the generated impl)   iter.fold(init, |a, b| e)
+               ExpType::try_from(bnum)   result_expect! on its Result   `Self::Output` (the impl's `type Output = T;`)
   patterns     Some(x)  None  Ordering::Less|Equal|Greater  true false  _  (true, false) ..
   functions    inherent / free `fn`s by name; functions of trait impls by `<Trait> for <Type>::<name>`; functions produced by
                single-arm helper macros (ilog!, checked_ilog!, num_trait_impl!, shift_impl!, try_shift_impl!) by expanding the
